@@ -22,10 +22,19 @@ is_closed = Fn(F, ["impl UnixError", "channel_is_closed"], ret="r",
     ensures=[Clause("unix.conv.channel_is_closed/ensures.only_channel_closed", "r <==> (*self is ChannelClosed)", ["C03", "C12", "C06"])],
     safety_props=["C18"])
 
+to_io = Fn(F, ["impl From<UnixError> for io::Error", "from"], ret="r",
+    ensures=[
+        Clause("unix.conv.io_error/ensures.os_error_code_preserved",
+               "(unix_error matches UnixError::Errno(c) ==> io_raw(r) == Some(c)) && (unix_error is ChannelClosed ==> io_raw(r) is None)\n"
+               "&& (unix_error matches UnixError::IoError(e) ==> r == e)", ["C09", "C03"]),
+    ],
+    rules=[Rule("B15", r"io::Error::new\(io::ErrorKind::ConnectionReset, unix_error\)", "io_error_connection_reset(unix_error)", "io::Error::new(kind, payload) -> stub (no OS code)")],
+    safety_props=["C18"])
+
 UNIT = Unit(
     name="u4_conv",
     prelude=["units/common.rs", "units/u4_conv.rs"],
-    groups=[("impl ipc::TryRecvError", [try_recv]), ("impl ipc::IpcError", [ipc_err]), ("impl UnixError", [is_closed])],
+    groups=[("impl ipc::TryRecvError", [try_recv]), ("impl ipc::IpcError", [ipc_err]), ("impl UnixError", [is_closed]), ("impl UnixErrorToIo", [to_io])],
     props=["C03", "C10", "C12", "C09"],
     kernel_clauses=["EAGAIN == EWOULDBLOCK == 11 (x86_64-linux-gnu)"],
 )
